@@ -28,6 +28,7 @@ MODES = {"default": "default", "none": "default", "zero": "c0", "one": "c1", "od
 R = "fam.id3f"
 _known = None
 _oracles_done = set()
+_vm_done = False
 
 
 def known_frames():
@@ -113,6 +114,10 @@ def check_after(ctx, what, after, frames, data):
 
 
 def check_step(ctx, kind, st):
+    global _vm_done
+    if not _vm_done:
+        _vm_done = True
+        vm_crosscheck(ctx)
     data = {"kind": kind.name, "op": st.brief(), "before_len": len(st.before), "before_head": st.before[:32].hex(),
             "v1": st.v1, "v2": st.v2}
     op = st.op
@@ -217,12 +222,14 @@ def extra_layouts(ctx, st, data0):
     from .engine import pad_callback
     rng = ctx.rng
     for rep in range(3):
-        ver = rng.choice([2, 3, 3, 4, 4, 4, 5, 1])
-        flags = rng.choice([0, 0, 0, 0, 0x40, 0x40, 0x80, 0x10, 0x20, 0x01, 0xC0])
+        valid = rng.random() < 0.5           # a layout the theorems speak about (id3f_wf)
+        ver = rng.choice([2, 3, 4, 4]) if valid else rng.choice([2, 3, 3, 4, 4, 4, 5, 1])
+        flags = 0 if valid else rng.choice([0, 0, 0, 0, 0x40, 0x40, 0x80, 0x10, 0x20, 0x01, 0xC0])
         tagdesc = None
         if rng.random() < 0.75:
-            fr = b"".join(frame(rng.choice([b"TIT2", b"TPE1", b"XXXX", b"TT2\x00"]), bytes([3]) + bytes(rng.choice([1, 5, 40]) * [0x61]), ver)
-                          for _ in range(rng.choice([0, 1, 2])))
+            ids = [b"TIT2", b"TPE1", b"XXXX", b"A1B2"] if valid else [b"TIT2", b"TPE1", b"XXXX", b"TT2\x00", b"tit2"]
+            fr = b"".join(frame(rng.choice(ids), bytes([3]) + bytes(rng.choice([1, 5, 40, 200]) * [0x61]), ver)
+                          for _ in range(rng.choice([0, 1, 2, 3])))
             if flags & 0x40 and rng.random() < 0.7:
                 ext = rng.choice([b"\x00\x00\x00\x06" + bytes(6), b"\x00\x00\x00\x0a" + bytes(10), b"\x00\x00\x00\x02", b"\x00\x00\x7f\x7f",
                                   b"\x00\x00\x00\x80", b"\xff\xff\xff\xff", b"\x00\x00"])
@@ -231,6 +238,9 @@ def extra_layouts(ctx, st, data0):
             tagdesc = [ver, flags, fr, pad]
         audio = rand_payload(rng)
         v1 = rand_v1(rng)
+        if valid:
+            audio = b"\xff\xfb\x90\x64" + bytes(rng.choice([0x00, 0x55, 0x54]) for _ in range(rng.choice([127, 128, 140, 1000])))
+            v1 = rng.choice([None, b"TAG" + bytes(rng.choice([0x00, 0x20, 0x41]) for _ in range(125))])
         r = ctx.model.call("id3f_build", "none" if tagdesc is None else "%s/%s/%s/%s" % (zs(tagdesc[0]), zs(tagdesc[1]), hx(tagdesc[2]), zs(tagdesc[3])),
                            hx(audio), "none" if v1 is None else hx(v1))
         if not r.startswith("ok "):
@@ -238,7 +248,7 @@ def extra_layouts(ctx, st, data0):
             return
         f0 = unhx(r[3:])
         # corruptions of the header the builder cannot express
-        c = rng.random()
+        c = 1.0 if valid else rng.random()
         if tagdesc is not None and c < 0.12:
             f0 = f0[:6] + bytes([rng.choice([0x80, 0xFF])]) + f0[7:]           # size not syncsafe
         elif tagdesc is not None and c < 0.24:
@@ -441,3 +451,63 @@ def oracles(ctx, kind, st):
         ctx.violation("oracle", "C07 ID3: saving a second time changes the file (default padding policy is fed a file size that includes the old tag)",
                       {"class": "default-policy-size-includes-tag", "runner": "fam.id3f.oracle", "property": "C07", "kind": kind.name,
                        "call": "save(padding=lambda i: 12000000); then load+save() three times", "sizes_after_each_default_save": sizes})
+
+
+# ---------------------------------------------------------------------------------- vm_compute cross-check
+def vm_crosscheck(ctx):
+    """the extracted binary and Coq's own evaluator must agree on id3f_save / id3f_delete / id3f_wf / id3f_load for small
+    synthetic files (once per run)"""
+    import re
+    from common import coq_bytes, vm_shard
+    rng = ctx.rng
+    cases, keys = [], []
+    v1b = b"TAG" + bytes(125)
+    for i in range(12):
+        ver = rng.choice([2, 3, 4, 4, 5])
+        flags = rng.choice([0, 0, 0, 0x40, 0x80])
+        fr = b"".join(frame(rng.choice([b"TIT2", b"XXXX"]), bytes([3, 0x61, 0x62]), ver) for _ in range(rng.choice([0, 1, 2])))
+        tag = None if i % 4 == 3 else "%s/%s/%s/%s" % (zs(ver), zs(flags), hx(fr), zs(rng.choice([0, 7])))
+        audio = rng.choice([b"", b"\xff\xfb" + bytes(rng.choice([3, 130, 160])), bytes(4) + b"TAG" + bytes(rng.choice([120, 121, 125, 126]))])
+        v1 = None if rng.random() < 0.5 else v1b
+        r = ctx.model.call("id3f_build", tag or "none", hx(audio), "none" if v1 is None else hx(v1))
+        f0 = unhx(r[3:])
+        frames = frame(b"TPE1", bytes([0, 0x41]), 4) * rng.choice([0, 1, 2])
+        v2 = rng.choice([3, 4]); v1m = rng.choice([0, 1, 2])
+        mode, cb = rng.choice([("default", "id3f_cb_default"), ("keep", "id3f_cb_keep"), ("c0", "(id3f_cb_const 0)"),
+                               ("c" + zs(777), "(id3f_cb_const 777)"), ("c-1", "(id3f_cb_const (-1))")])
+        F = coq_bytes(f0)
+        cases.append("match id3f_save %s %s (mkIOpts %d %d %s %s [[84;73;84;50]]) with Ok d => (0, d) | Raise _ => (1, []) end"
+                     % (F, coq_bytes(frames), v2, v1m, coq_bytes(v1b), cb))
+        keys.append(("save", f0, frames, v2, v1m, mode))
+        cases.append("match id3f_delete %s with Ok d => (0, d) | Raise _ => (1, []) end" % F)
+        keys.append(("delete", f0))
+        cases.append("id3f_wf %s" % F)
+        keys.append(("wf", f0))
+    pre = "From Coq Require Import ZArith List. Import ListNotations. Require Import Base.Py Model.Fam_id3f. Open Scope Z_scope."
+    res, log = vm_shard("fam_id3f", pre, cases)
+    if res is None or len(res) != len(cases):
+        ctx.disagree(R + ".vm_shard", "vm_compute shard failed to run", {"log": str(log)[-300:]})
+        return
+    for key, r in zip(keys, res):
+        ctx.vm_cases += 1
+        r = r.replace("%Z", "")
+        if key[0] == "wf":
+            want = ctx.model.call("id3f_wf", hx(key[1]))
+            if want != ("ok 1" if r == "true" else "ok 0"):
+                ctx.disagree(R + ".vm_shard", "id3f_wf: extracted %s, vm_compute %s" % (want, r), {"file": key[1].hex()})
+            continue
+        if key[0] == "save":
+            rm = ctx.model.call("id3f_save", hx(key[1]), hx(key[2]), zs(key[3]), zs(key[4]), hx(v1b), key[5], hx(b"TIT2"))
+        else:
+            rm = ctx.model.call("id3f_delete", hx(key[1]))
+        m = re.match(r"\((\d), \[([^\]]*)\]\)", r)
+        if not m:
+            ctx.disagree(R + ".vm_shard", "unparsable vm_compute result", {"result": r[:200]})
+            continue
+        if m.group(1) == "1":
+            ok = rm.startswith("raise")
+        else:
+            bts = bytes(int(x) for x in m.group(2).split(";") if x.strip())
+            ok = rm.startswith("ok ") and unhx(rm.split(" ")[1]) == bts
+        if not ok:
+            ctx.disagree(R + ".vm_shard", "%s: extracted binary and vm_compute differ" % key[0], {"file": key[1].hex(), "binary": rm[:120], "vm": r[:120]})
